@@ -28,6 +28,72 @@ CLAIMED = {
               'logging cut, PRINT number rendering abstracted (decided by '
               'C16/C17).  Floats are concrete only.'),
         design='DESIGN.md 4/C01'),
+    'C02': dict(
+        category='translation_validation',
+        text=('Three families. (1) Folder vs machine: the real Expr.fold() '
+              'of BinaryOp/UnaryOp over literals with SYMBOLIC INTEGER/LONG '
+              'values is compared with the code the real code generator '
+              'emits for the unfolded node executed by the real CPU '
+              'instruction methods - for all operand values: folded => same '
+              'type/value and encodable; run-time trap => not folded; '
+              'fold() never raises. Float, bitwise, "/" and "^" operands '
+              'are enumerated from a boundary table (said so in the '
+              'evidence). (2) Peephole windows with symbolic operands: '
+              'optimize() preserves stack, cells and control transfer. '
+              '(3) Whole catalogue programs at two optimisation levels '
+              'with symbolic inputs agree on trace and outcome.'),
+        note=('Trusted: CrossHair/z3, direct dispatch of instruction tuples '
+              'to QvmCpu._exec_* (assembler packing checked as a range '
+              'condition). Family 4 (traced compile with symbolic literals) '
+              'is not built.'),
+        design='DESIGN.md 4/C02'),
+    'C03': dict(
+        category='other',
+        text=('A run-time monitor (machine-fault traps, typed reads, type '
+              'stability of every storage cell, valid instruction starts, '
+              'clean operand stack at every statement start of -g builds) '
+              'is evaluated on EVERY path of each catalogue program under '
+              'symbolic execution, i.e. for all input values and all '
+              'execution paths of those programs; the type-pair catalogue '
+              'enumerates every operator group x operand type pair, '
+              'assignment/argument/condition/selector/index conversions.'),
+        note=('Program shapes are a finite catalogue (not all programs); '
+              'static abstract interpretation of emitted code is not a '
+              'solver technique and is not built.'),
+        design='DESIGN.md 4/C03'),
+    'C07': dict(
+        category='other',
+        text=('For each BASIC template feeding a builtin / operator / '
+              'device statement, with all operands symbolic: on every path '
+              'the real QvmCpu.run() returns without a host exception, '
+              'halted by instruction, end of code or trap, and (where the '
+              'reference has semantics) with the trap class of the cause; '
+              'repeated with ON ERROR GOTO / RESUME NEXT armed and on the '
+              'real dumb peripherals.'),
+        note=('Interrupt timing (symbolic tick index) is covered by the '
+              'interrupt family when present in evidence; SmartTerminal '
+              'needs a subprocess and is outside.'),
+        design='DESIGN.md 4/C07'),
+    'C08': dict(
+        category='translation_validation',
+        text=('For each catalogue program and optimisation level the -g and '
+              'non -g modules have byte-identical literal/data/global '
+              'sections and, run with the same SYMBOLIC inputs, equal '
+              'device trace and outcome on every path (implementation vs '
+              'implementation). RESUME-executing programs are exempt.'),
+        note='Program shapes = catalogue incl. the shape family.',
+        design='DESIGN.md 4/C08'),
+    'C15': dict(
+        category='other',
+        text=('Tokeniser: parse_data(s) equals a reference splitter for '
+              'EVERY s over {a,1,blank,comma,quote,colon} up to the length '
+              'bound (4 quick / 6 thorough). Cursor: enumerated DATA/label '
+              'placements x enumerated READ/RESTORE sequences with SYMBOLIC '
+              'item texts against a reference cursor (source order, per-'
+              'type conversion, exhaustion, text into numeric).'),
+        note=('The grammar-level re-joining of DATA clauses is inside '
+              'pyparsing and only exercised with concrete layout texts.'),
+        design='DESIGN.md 4/C15'),
     'C16': dict(
         category='other',
         text=('INTEGER/LONG part only: for all 2^16 / 2^32 values the real '
